@@ -151,6 +151,13 @@ func c12(tier string) {
 				prof.Validations[vi].MessageRaw = lib.NewYMap().Set("text", lib.Str("x"))
 			case 5:
 				prof.Validations[vi].MessageRaw = lib.Int(404)
+			case 6, 7:
+				// text that is awkward for whoever encodes the report: markup, text that looks like a JSON escape, control
+				// characters, separators, a long run
+				prof.Validations[vi].Message = pick(r, "<b>bold</b> & more", `looks like an escape: \u003c \u003e \u0026 \u0000 \n \" \\`, "ctl \x01\x1f\x7f sep \u2028\u2029 nbsp\u00a0", `"quoted" 'single' back\slash`,
+					strings.Repeat("<&>\\u003c", 2000), "emoji 😀 tag \U000E0001 é☃漢")
+				ctx.Count("validations_with_text_awkward_for_the_encoder", 1)
+				continue
 			default:
 				continue
 			}
